@@ -1,5 +1,7 @@
 //! C09 — exact integers, operators follow the manual.
 //!   gen : `id \t request \t real` lines for the correspondence of `+ - * / %` and unary `-`
+//!   cons: `id \t request \t real` lines for `c09.cmp/eq/len` and the integer consumers
+//!         (`c09.idx/slice/limit/skip/range/tobytes/implode/i32/show/key/join`), plus `JOININV` oracle lines
 //!   meta: representation independence of integer consumers (real code only); prints
 //!         `META <ok|FAIL> <template> <n> …`
 use super::common::*;
@@ -234,11 +236,303 @@ pub fn meta(_tier: &str) {
     }
 }
 
+
+// ---------------------------------------------------------------------------------------------
+// round 2: correspondence of comparison / equality / length and of the integer consumers
+// ---------------------------------------------------------------------------------------------
+
+/// like `run_with`, but the run goes on after an error item (as `skip` does); errors become `true`
+fn run_all(f: &jaq_all::data::Filter, input: Val, vars: Vec<Val>, limit: usize) -> Vec<Val> {
+    use jaq_all::data::{Ctx, Data, Runner};
+    use jaq_core::Vars;
+    use jaq_std::input::RcIter;
+    let runner = Runner::default();
+    let inputs: Box<dyn Iterator<Item = Result<Val, String>>> = Box::new(std::iter::empty());
+    let rc = RcIter::new(inputs);
+    let data = Data { runner: &runner, lut: &f.lut, inputs: &rc };
+    let ctx = Ctx::new(&data, Vars::new(vars));
+    let mut out = Vec::new();
+    for y in f.id.run((ctx, input)).take(limit) {
+        match y {
+            Ok(v) => out.push(v),
+            Err(_) => out.push(Val::Bool(true)),
+        }
+    }
+    out
+}
+
+fn one(f: &jaq_all::data::Filter, input: Val, vars: Vec<Val>) -> Result<Val, jaq_json::Error> {
+    use jaq_all::data::{Ctx, Data, Runner};
+    use jaq_core::Vars;
+    use jaq_std::input::RcIter;
+    let runner = Runner::default();
+    let inputs: Box<dyn Iterator<Item = Result<Val, String>>> = Box::new(std::iter::empty());
+    let rc = RcIter::new(inputs);
+    let data = Data { runner: &runner, lut: &f.lut, inputs: &rc };
+    let ctx = Ctx::new(&data, Vars::new(vars));
+    let mut it = f.id.run((ctx, input));
+    match it.next() {
+        Some(Ok(v)) => Ok(v),
+        Some(Err(exn)) => match exn.get_err() {
+            Ok(e) => Err(e),
+            Err(_) => Ok(Val::Null),
+        },
+        None => Ok(Val::Null),
+    }
+}
+
+/// integers at the boundaries that the consumers care about, each in every representation it has
+fn special_ints() -> Vec<Val> {
+    let mut v = vec![];
+    let txt = ["0", "1", "-1", "2", "-2", "3", "4", "5", "-5", "6", "-6", "7", "65", "127", "128", "255", "256", "-255", "-256", "-254",
+               "1000", "55295", "55296", "57343", "57344", "65535", "65536", "1114111", "1114112", "2147483647", "2147483648",
+               "-2147483648", "-2147483649", "4294967295", "4294967296", "9007199254740993", "9223372036854775807",
+               "9223372036854775808", "-9223372036854775808", "-9223372036854775809", "-9223372036854775807",
+               "18446744073709551614", "18446744073709551615", "18446744073709551616", "-18446744073709551615",
+               "-18446744073709551616", "36893488147419103232", "-36893488147419103232", "1180591620717411303424"];
+    for t in txt {
+        let b: BigInt = t.parse().unwrap();
+        use num_traits::ToPrimitive;
+        if let Some(i) = b.to_isize() {
+            v.push(int(i));
+        }
+        v.push(Val::Num(Num::big_int(b)));
+    }
+    v
+}
+
+fn esc(s: String) -> String {
+    s.replace(['\t', '\n'], " ")
+}
+
+pub fn cons(tier: &str) {
+    use jaq_core::ValT;
+    let mut rng = Rng::new(prng::seed_from_env() ^ 0x9e3779b97f4a7c15);
+    let pool = num_pool();
+    let specials = special_ints();
+    let mut nums: Vec<Val> = pool.clone();
+    nums.extend(specials.iter().cloned());
+    let nrand = if tier == "thorough" { 20000 } else { 1500 };
+    let mut id = 0usize;
+    let mut emit = |req: String, real: Result<String, String>| {
+        let real = real.unwrap_or_else(|p| format!("PANIC {}", esc(p)));
+        println!("cons{id}\t{req}\t{real}");
+        id += 1;
+    };
+    let ord = |o: std::cmp::Ordering| match o {
+        std::cmp::Ordering::Less => "lt",
+        std::cmp::Ordering::Equal => "eq",
+        std::cmp::Ordering::Greater => "gt",
+    };
+    // cmp / eq: the full pool product and random integer pairs (also equal values in two representations)
+    let mut pairs: Vec<(Val, Val)> = vec![];
+    for a in &pool {
+        for b in &pool {
+            pairs.push((a.clone(), b.clone()));
+        }
+    }
+    for a in &specials {
+        for b in [&pool[0], &pool[21], &pool[40], &pool[58], &pool[59], &pool[60]] {
+            pairs.push((a.clone(), b.clone()));
+            pairs.push((b.clone(), a.clone()));
+        }
+    }
+    for _ in 0..nrand {
+        let a = rand_int(&mut rng);
+        let b = match rng.below(4) {
+            0 => match &a {
+                Val::Num(Num::Int(i)) => Val::Num(Num::big_int(BigInt::from(*i))),
+                x => x.clone(),
+            },
+            1 => (a.clone() + int(rng.below(3) as isize - 1)).unwrap(),
+            2 => rng.pick(&pool).clone(),
+            _ => rand_int(&mut rng),
+        };
+        pairs.push((a, b));
+    }
+    for (a, b) in &pairs {
+        let (a1, b1) = (a.clone(), b.clone());
+        emit(format!("c09.cmp {} {}", vx::enc(a), vx::enc(b)), catch(move || ord(a1.cmp(&b1)).to_string()));
+        let (a1, b1) = (a.clone(), b.clone());
+        emit(format!("c09.eq {} {}", vx::enc(a), vx::enc(b)), catch(move || if a1 == b1 { "T".to_string() } else { "F".to_string() }));
+    }
+    // length
+    let flen = compile("length").unwrap();
+    let mut lens = nums.clone();
+    for _ in 0..nrand / 4 {
+        lens.push(rand_int(&mut rng));
+    }
+    for a in &lens {
+        let (f, a1) = (&flen, a.clone());
+        emit(format!("c09.len {}", vx::enc(a)), catch(move || show(one(f, a1, vec![]))));
+    }
+    // indexing
+    let conts: Vec<Val> = vec![
+        arr(vec![]), arr(vec![int(10)]), arr(vec![int(10), tstr(b"x"), Val::Null, float(1.5), arr(vec![])]),
+        bstr(b""), bstr(b"\x00\xffabc"),
+    ];
+    let mut idxs = nums.clone();
+    idxs.extend([Val::Null, Val::Bool(true), tstr(b"a")]);
+    for c in &conts {
+        for i in &idxs {
+            let (c1, i1) = (c.clone(), i.clone());
+            emit(format!("c09.idx {} {}", vx::enc(c), vx::enc(i)), catch(move || show(c1.index(&i1))));
+        }
+    }
+    // slicing: arrays, byte strings, text strings (with multi-byte and invalid sequences)
+    let sconts: Vec<Val> = vec![
+        arr(vec![]), arr(vec![int(1), int(2), int(3), int(4), int(5)]), bstr(b"\x00\xffabc"), tstr(b""), tstr(b"abcde"),
+        tstr("a\u{e9}\u{20ac}\u{1f600}z".as_bytes()), tstr(b"x\xff\xe2\x82y"),
+    ];
+    let mut bounds: Vec<Val> = vec![Val::Null, float(1.5), float(f64::NAN), tstr(b"a"), dec("1.0")];
+    for t in ["0", "1", "-1", "2", "-2", "3", "4", "5", "-5", "6", "-6", "9223372036854775807", "-9223372036854775808",
+              "18446744073709551615", "18446744073709551616", "-18446744073709551616", "36893488147419103232", "-36893488147419103232"] {
+        let b: BigInt = t.parse().unwrap();
+        use num_traits::ToPrimitive;
+        if let Some(i) = b.to_isize() {
+            bounds.push(int(i));
+        }
+        bounds.push(Val::Num(Num::big_int(b)));
+    }
+    for c in &sconts {
+        for lo in &bounds {
+            for hi in &bounds {
+                let (c1, l1, h1) = (c.clone(), lo.clone(), hi.clone());
+                emit(format!("c09.slice {} {} {}", vx::enc(c), vx::enc(lo), vx::enc(hi)),
+                     catch(move || show(c1.range(Some(&l1)..Some(&h1)))));
+            }
+        }
+    }
+    // limit / skip: counters of every kind of number; an `"E"` element makes the generator raise an error
+    let gen_items = ".[] | if . == \"E\" then error else . end";
+    let vars = vec!["n".to_string()];
+    let flimit = compile_vars(&format!("limit($n; {gen_items})"), &vars).unwrap();
+    let fskip = compile_vars(&format!("skip($n; {gen_items})"), &vars).unwrap();
+    let lists: Vec<Val> = vec![
+        arr(vec![]), arr(vec![int(1), int(2), int(3), int(4)]),
+        arr(vec![int(1), tstr(b"E"), int(3), tstr(b"E"), int(5), int(6)]), arr(vec![tstr(b"E")]),
+    ];
+    for n in &nums {
+        for l in &lists {
+            for (name, f) in [("limit", &flimit), ("skip", &fskip)] {
+                let (n1, l1) = (n.clone(), l.clone());
+                emit(format!("c09.{name} {} {}", vx::enc(n), vx::enc(l)),
+                     catch(move || format!("V {}", vx::enc_canon(&arr(run_all(f, l1, vec![n1], 20))))));
+            }
+        }
+    }
+    // range/3: integer, float and mixed steps; at most 12 outputs are pulled
+    let frange = compile_vars("range($a; $b; $c)", &["a".to_string(), "b".to_string(), "c".to_string()]).unwrap();
+    let rset: Vec<Val> = vec![
+        int(0), int(3), int(-3), big("5"), int(isize::MAX - 2), int(isize::MIN + 2), big("9223372036854775809"), big("-9223372036854775810"),
+        big("18446744073709551616"), float(0.5), float(2.0), float(-0.0), float(1e300), float(f64::INFINITY), float(f64::NAN), dec("1.5"),
+        big("9007199254740993"), float(9007199254740992.0),
+    ];
+    let steps: Vec<Val> = vec![int(1), int(-1), int(2), int(0), big("3"), big("-2"), big("0"), big("9223372036854775808"), float(0.5), float(-1.5),
+                                float(0.0), float(f64::NAN), float(f64::INFINITY), dec("0.25"), int(isize::MAX)];
+    let mut triples: Vec<(Val, Val, Val)> = vec![];
+    for a in &rset {
+        for b in &rset {
+            for c in &steps {
+                triples.push((a.clone(), b.clone(), c.clone()));
+            }
+        }
+    }
+    for _ in 0..nrand {
+        let a = rand_int(&mut rng);
+        let c = if rng.chance(1, 2) { rand_int(&mut rng) } else { int(rng.below(7) as isize - 3) };
+        let k = BigInt::from(rng.below(9) as isize - 2);
+        let b = match (&a, &c) {
+            (Val::Num(x), Val::Num(y)) => Val::Num(x.clone() + y.clone() * Num::big_int(k)),
+            _ => unreachable!(),
+        };
+        triples.push((a, b, c));
+    }
+    for (a, b, c) in &triples {
+        let (f, a1, b1, c1) = (&frange, a.clone(), b.clone(), c.clone());
+        emit(format!("c09.range {} {} {}", vx::enc(a), vx::enc(b), vx::enc(c)),
+             catch(move || format!("V {}", vx::enc_canon(&arr(run_all(f, Val::Null, vec![a1, b1, c1], 12))))));
+    }
+    // tobytes, implode, ldexp/scalbln exponent, decimal rendering
+    let ftobytes = compile("tobytes").unwrap();
+    let fimplode = compile("implode").unwrap();
+    let fldexp = compile_vars("ldexp(1; $n)", &vars).unwrap();
+    let fscalbln = compile_vars("scalbln(1; $n)", &vars).unwrap();
+    let shows: Vec<_> = ["tostring", "tojson", "@text", "@json", "\"\\(.)\""].iter().map(|c| compile(c).unwrap()).collect();
+    let mut cands = nums.clone();
+    cands.extend([Val::Null, tstr(b"ab"), bstr(b"\xff")]);
+    for _ in 0..nrand / 2 {
+        cands.push(rand_int(&mut rng));
+    }
+    for n in &cands {
+        let (f, n1) = (&ftobytes, n.clone());
+        emit(format!("c09.tobytes {}", vx::enc(n)), catch(move || show(one(f, n1, vec![]))));
+        let w = arr(vec![int(65), n.clone(), tstr(b"z"), arr(vec![n.clone()])]);
+        let (f, w1) = (&ftobytes, w.clone());
+        emit(format!("c09.tobytes {}", vx::enc(&w)), catch(move || show(one(f, w1, vec![]))));
+        for w in [arr(vec![n.clone()]), arr(vec![int(97), n.clone(), int(-255)])] {
+            let (f, w1) = (&fimplode, w.clone());
+            emit(format!("c09.implode {}", vx::enc(&w)), catch(move || show(one(f, w1, vec![]))));
+        }
+        for f in [&fldexp, &fscalbln] {
+            let n1 = n.clone();
+            emit(format!("c09.i32 {}", vx::enc(n)), catch(move || show(one(f, Val::Null, vec![n1]))));
+        }
+        if matches!(n, Val::Num(Num::Int(_) | Num::BigInt(_))) {
+            for f in &shows {
+                let n1 = n.clone();
+                emit(format!("c09.show {}", vx::enc(n)), catch(move || match one(f, n1, vec![]) {
+                    Ok(Val::TStr(b)) => format!("H{}", vx::hex(&b)),
+                    r => show(r),
+                }));
+            }
+        }
+    }
+    // object keys: hash + eq (entries are inserted in order; the look-up key in every representation)
+    // (integers that are `==` to a float only after rounding, like 2^63-1 and 2^63 as a float, make `==` non-transitive;
+    // which of several "equal" keys an IndexMap probe meets first is C08's subject, not modelled here)
+    let keyset: Vec<Val> = vec![int(0), big("0"), float(0.0), float(-0.0), int(1), big("1"), float(1.0), dec("1.0"), int(isize::MAX), big("9223372036854775807"),
+                                 big("9223372036854775808"), int(1 << 53), big("9007199254740992"), int(255), big("255"), float(255.0),
+                                 float(9007199254740992.0), int(isize::MIN), big("-9223372036854775808"), float(-9223372036854775808.0), tstr(b"1"), Val::Null,
+                                 big("1180591620717411303424"), float(1180591620717411303424.0), float(f64::NAN), float(1.5)];
+    let nkey = if tier == "thorough" { 20000 } else { 2500 };
+    for _ in 0..nkey {
+        let len = rng.below(5);
+        let es: Vec<(Val, Val)> = (0..len).map(|j| (rng.pick(&keyset).clone(), int(j as isize))).collect();
+        let k = rng.pick(&keyset).clone();
+        let enc_es = arr(es.iter().map(|(k, v)| arr(vec![k.clone(), v.clone()])).collect());
+        let (es1, k1) = (es.clone(), k.clone());
+        emit(format!("c09.key {} {}", vx::enc(&enc_es), vx::enc(&k)), catch(move || {
+            let o = obj(es1);
+            let got = match &o {
+                Val::Obj(m) => m.get(&k1).map(vx::enc_canon).unwrap_or_else(|| "-".to_string()),
+                _ => unreachable!(),
+            };
+            format!("{} | {}", vx::enc_canon(&o), got)
+        }));
+    }
+    // join as the inverse of string division (the real `/` then the real `join`), and `join` itself
+    let fjoin = compile_vars("join($n)", &vars).unwrap();
+    let strs: Vec<&[u8]> = vec![b"", b"a", b"ab", b"a,b,,c", b",", b",,", b"aXbXXc", b"XX", b"aaa", b"aa", "a\u{e9}\u{20ac}\u{1f600}".as_bytes(), b"x\xffy", b"\xe2\x82", b"abcabca"];
+    for s in &strs {
+        for sep in &strs {
+            let parts = (tstr(s) / tstr(sep)).unwrap();
+            let (f, p1, sep1) = (&fjoin, parts.clone(), tstr(sep));
+            emit(format!("c09.join {} {}", vx::enc(&tstr(sep)), vx::enc(&parts)), catch(move || show(one(f, p1, vec![sep1]))));
+            // property oracle on the real code alone: join inverts `/`
+            let (f, p1, sep1, s1) = (&fjoin, parts.clone(), tstr(sep), tstr(s));
+            let back = catch(move || one(f, p1, vec![sep1]).ok() == Some(s1));
+            println!("JOININV {}\t{}\t{}", if back == Ok(true) { "ok" } else { "FAIL" }, vx::hex(s), vx::hex(sep));
+        }
+    }
+}
+
 pub fn main(args: &[String]) {
     let tier = std::env::var("VERIF_TIER").unwrap_or_else(|_| "quick".into());
     match args.first().map(|s| s.as_str()) {
         Some("gen") => gen(&tier),
         Some("meta") => meta(&tier),
-        _ => eprintln!("c09 gen|meta"),
+        Some("cons") => cons(&tier),
+        _ => eprintln!("c09 gen|meta|cons"),
     }
 }
